@@ -5,7 +5,7 @@ from tools import vlib, corr, cgen
 RULE = ('construct layer: Model/Construct.v vs load_all (graphs with identity numbering, outcome class) on corpus, mutants and generated documents. Direct on the implementation: documents '
         'rendered from a generated AST (nested lists, dicts, sets, omap/pairs lists; anchors on any collection; aliases backward, nested, recursive incl. self-reference; 6% undefined/forward '
         'alias, 6% duplicate anchor, 6% a container as its own key) loaded with Safe/Full/Unsafe and CSafe/CFull loaders: outcome class as the rules demand, and for loaded documents the '
-        'object identity classes must equal the anchor/alias classes of the AST (both directions), under a 20 s watchdog. non-trivial = document has at least one anchor; distinct by text')
+        'object identity classes must equal the anchor/alias classes of the AST (both directions), under a 20 s watchdog; special probes: aliases of anchored scalars whose construction is not idempotent by identity (float, big int, timestamp, binary) must be the object built for the anchor; an object that refers to itself and is first reached as a mapping key / set member must load with the reference being itself. non-trivial = document has at least one anchor; distinct by text')
 
 LOADERS = ['SafeLoader', 'FullLoader', 'UnsafeLoader', 'CSafeLoader', 'CFullLoader']
 def run(ctx):
@@ -24,6 +24,15 @@ def run(ctx):
         t1, a1, e1 = cgen.gen_c13(ctx.rng, 2)
         if e1 == 'ok' and '&a1 ' in t1: multi.append(['--- ' + t1 + '\n--- [*a1]\n', ['seq', None, []], 'ComposerError', ctx.rng.choice(LOADERS)])
     corr.direct(ctx, 'c13', cases, describe=lambda c: dict(text=c[0], expect=c[2], loader=c[3], after_stateful_prefix=(len(c) > 4)), label='identity')
+    special = []
+    for sc in ('1.5', '-.inf', '123456789012345678901234567890', '2001-12-14', '2001-12-14 21:59:43.10 -5', '!!binary QUJD', '0x1F', '1:30.5', 'text'):
+        for L in LOADERS + ['UnsafeLoader', 'CUnsafeLoader', 'BaseLoader']:
+            special.append(['scalar', '- &a %s\n- *a\n- *a\n' % sc, L]); special.append(['scalar', '{k: &a %s, j: *a}\n' % sc, L])
+    for L in ('UnsafeLoader', 'CUnsafeLoader', 'Loader'):
+        for t in ('? &k !!python/object:tools.c11custom.Point {me: *k}\n: v\n', '!!set\n? &k !!python/object:tools.c11custom.Point {me: *k}\n',
+                  '- {? &k !!python/object:tools.c11custom.Point {me: *k, x: 1} : v}\n', '{&k !!python/object:tools.c11custom.Point {me: *k}: 1}\n'):
+            special.append(['selfkey', t, L])
+    corr.direct(ctx, 'c13x', special, describe=lambda c: dict(probe=c[0], text=c[1], loader=c[2]), label='special')
     corr.direct(ctx, 'c13m', multi, describe=lambda c: dict(text=c[0], expect=c[2], loader=c[3]), label='across_documents')
     ctx.partial = [dict(theorem='compose_alias_identity / construct_identity (whole documents, cycles)', missing='one-step lemmas proved; the global iff is decided by correspondence and the direct run')]
     return ctx.finish(assumptions=['LibYAML composer is observed, not modelled'])
@@ -33,4 +42,5 @@ def replay(ctx, path):
     ctx.regen(); ctx.prove()
     c = d.get('case', {})
     if 'text' in c: corr.load(ctx, 0, texts=[c['text']], loaders=('safe',))
+    if 'probe' in c: corr.direct(ctx, 'c13x', [[c['probe'], c['text'], c['loader']]], describe=lambda c: dict(probe=c[0], text=c[1], loader=c[2]))
     return ctx.finish()
